@@ -83,6 +83,22 @@ def build_classes(layout='base-both'):
     for pid, (iface, name, sig, access, emits, attr, base) in DECL.items():
         d = objects.DBusProperty(name) if pid in lay['anon'] else objects.DBusProperty(name, interface=iface)
         (sub_attrs if pid in lay['sub'] else base_attrs)[attr] = d
+    # the object also has an interface of its own with a member called Get (a key/value store), implemented by a method
+    # named dbus_Get and bound to that interface: org.freedesktop.DBus.Properties.Get is not that member
+    store_if = interface.DBusInterface('org.v.Store', interface.Method('Get', arguments='ss', returns='v'),
+                                       interface.Method('Set', arguments='ssv', returns=''), noRegister=True)
+    target = base_attrs if 'dbusInterfaces' in base_attrs else sub_attrs
+    target['dbusInterfaces'] = list(target.get('dbusInterfaces', [])) + [store_if]
+
+    @objects.dbusMethod('org.v.Store', 'Get')
+    def dbus_Get(self, a, b):
+        return 'from the store'
+
+    @objects.dbusMethod('org.v.Store', 'Set')
+    def dbus_Set(self, a, b, v):
+        self.store_was_set = True
+    target['dbus_Get'] = dbus_Get
+    target['dbus_Set'] = dbus_Set
     Base = type('Base', (objects.DBusObject,), base_attrs)
     if layout in ('split', 'anon'):
         # a constructor that sets a property before it initialises the base class: the value stays
